@@ -38,7 +38,9 @@ var baseOrder = []string{nCT, nRels, nMain, nDocRels, nStyles, nCore, nApp, nMed
 // OptionalParts are the parts whose failure must fall back to defaults (generator b).
 var OptionalParts = []string{nCT, nRels, nDocRels, nStyles, nCore}
 
-func el(name string, attrs []Attr, children ...Node) Node { return Node{N: name, A: attrs, C: children} }
+func el(name string, attrs []Attr, children ...Node) Node {
+	return Node{N: name, A: attrs, C: children}
+}
 func at(kv ...string) []Attr {
 	var a []Attr
 	for i := 0; i+1 < len(kv); i += 2 {
@@ -124,8 +126,8 @@ func stdTable(rows, cols int, grid bool) Node {
 func stdDrawing() Node {
 	return el("w:drawing", nil, el("wp:inline", at("distT", "0", "distB", "0", "distL", "0", "distR", "0"),
 		el("wp:extent", at("cx", "952500", "cy", "952500")), el("wp:docPr", at("id", "1", "name", "Picture 1", "descr", "d")),
-		el("a:graphic", nil, el("a:graphicData", at("uri", nsPic),
-			el("pic:pic", nil, el("pic:nvPicPr", nil, el("pic:cNvPr", at("id", "0", "name", "image1.png")), el("pic:cNvPicPr", nil)),
+		el("a:graphic", at("xmlns:a", nsA), el("a:graphicData", at("uri", nsPic),
+			el("pic:pic", at("xmlns:pic", nsPic), el("pic:nvPicPr", nil, el("pic:cNvPr", at("id", "0", "name", "image1.png")), el("pic:cNvPicPr", nil)),
 				el("pic:blipFill", nil, el("a:blip", at("r:embed", "rId2")), el("a:stretch", nil, el("a:fillRect", nil))),
 				el("pic:spPr", nil, el("a:xfrm", nil, el("a:off", at("x", "0", "y", "0")), el("a:ext", at("cx", "952500", "cy", "952500"))), el("a:prstGeom", at("prst", "rect"))))))))
 }
